@@ -5,6 +5,17 @@ import json, pathlib
 ALL = [f'C{i:02d}' for i in range(1, 20)]
 
 CHECKS = {
+ 'C19': dict(
+   technique='Coq proof over strings (pure-path split/suffix/with_suffix, association-list merge and key filtering) + path/dict-level differential on a temporary tree with decoy files and dill round trips',
+   text='Props/C19.v: for every path string the export and parameter-file targets keep the directory the caller named, \'.pkl\' / '
+        '\'.yaml\' are added only when the suffix is missing, close writes export_dir/<stem>.pgm; every section inherits each '
+        'DEFAULT key it does not define and overrides those it does, one result per non-DEFAULT section; from_dict keeps exactly '
+        'the constructor parameters. Tie to /repo: export() + dill.load (same parameters, same point matrix, which file appeared), '
+        'load_parameters() with decoy files in the working directory, YAML documents with/without DEFAULT, from_dict with extra '
+        'keys on six classes, PGMCompiler.close into missing directories - all compared with the model.',
+   note='Trusted: Coq kernel; pathlib/PyYAML/dill as oracles for normalisation, parsing and pickling; names generated in '
+        'normalised POSIX form.',
+   design='5/C19'),
  'C09': dict(
    technique='Coq proof (write emission depends on the compiler state only through the tracked shutter; sound history-independence monitor) + history-level snapshots of real objects, files and reported numbers',
    text='Props/C09.v: what the modelled write emits depends on the compiler state only through the shutter flag, hence writing '
